@@ -143,8 +143,10 @@ def check_fluxes(case):
     etot = u * (0.5 * rho * u * u + gam * p / (gam - 1)) + cs * Fr
     tol = 1e-3 if fld else 1e-8
     body = slice(0, len(etot) - 1)
+    # an embedded hydrodynamic shock shows as a last density increment far above the preceding ones (e.g. M0 = 1.2, gamma = 1.4: 9.4e-3 after 1.7e-5)
+    embedded = bool(rho[-1] / rho[-2] > 1.01 or (rho[-1] - rho[-2] > 50.0 * abs(rho[-2] - rho[-3]) and rho[-1] / rho[-2] > 1 + 1e-4))
     o.close('total energy flux (incl. radiation flux) constant along the profile', etot[body], etot[0], tol, regime=kind)
-    o.close('total energy flux at the downstream end node', etot[-1], etot[0], max(tol, 1e-6), regime=kind + ('-embedded-shock' if rho[-1] / rho[-2] > 1.01 else ''))
+    o.close('total energy flux at the downstream end node', etot[-1], etot[0], max(tol, 1e-6), regime=kind + ('-embedded-shock' if embedded else ''))
     # far-field equilibrium states related by the radiation-modified jump conditions
     if kind != 'ED':
         o.close('far field in radiative equilibrium: Tr = Tm', [Tr[0], Tr[-1]], [Tm[0], Tm[-1]], 1e-4, regime=kind)
